@@ -105,66 +105,7 @@ func runC04(c *Check) {
 		}
 	}
 
-	// ---- R2 diff-base label protocol
-	type site struct {
-		what, rel, fn, callee string
-	}
-	keys := map[string][]string{}
-	for _, s := range []site{
-		{"set", "internal/driver", "fetchProfiles", "SetLabel"},
-		{"test", "profile", "(*Sample).DiffBaseSample", "HasLabel"},
-		{"remove", "internal/report", "(*Report).newGraph", "RemoveLabel"},
-	} {
-		f := c.anchorFn("C04-R2", s.rel, s.fn)
-		if f == nil {
-			continue
-		}
-		for _, b := range f.Blocks {
-			for _, ins := range b.Instrs {
-				call, ok := ins.(*ssa.Call)
-				if !ok || call.Call.StaticCallee() == nil || call.Call.StaticCallee().Name() != s.callee {
-					continue
-				}
-				if k, ok := constString(call.Call.Args[1]); ok && strings.HasPrefix(k, "pprof::") {
-					val := ""
-					if len(call.Call.Args) > 2 {
-						if v, ok := constString(call.Call.Args[2]); ok {
-							val = v
-						} else if vs := variadicValues(call.Call.Args[2]); len(vs) == 1 {
-							val, _ = constString(vs[0])
-						}
-					}
-					keys[s.what] = append(keys[s.what], k+"="+val)
-				}
-			}
-		}
-	}
-	set, test, rem := keys["set"], keys["test"], keys["remove"]
-	switch {
-	case len(set) != 1 || len(test) != 1 || len(rem) != 1:
-		c.undecided("C04-R2", "diffbase", "", fmt.Sprintf("diff-base label sites not all found (set %v, test %v, remove %v)", set, test, rem))
-	case set[0] != test[0]:
-		c.bad("C04-R2", "diffbase", "", fmt.Sprintf("base samples are labelled %s but recognised by %s: the total of a diff would no longer be the base total", set[0], test[0]))
-	case !strings.HasPrefix(set[0], strings.TrimSuffix(rem[0], "=")+"="):
-		c.bad("C04-R2", "diffbase", "", fmt.Sprintf("base samples are labelled %s but the report removes label %s", set[0], rem[0]))
-	default:
-		c.ok("C04-R2", "diffbase", "", "the diff-base label is written, tested and removed consistently", "fetchProfiles sets "+set[0]+", Sample.DiffBaseSample tests "+test[0]+", Report.newGraph removes key "+strings.TrimSuffix(rem[0], "="))
-	}
-	// proto output keeps the label: printProto's call tree does not remove labels
-	if pp := c.anchorFn("C04-R2", "internal/report", "printProto"); pp != nil {
-		parent, _ := p.MG().Reach([]*ssa.Function{pp}, nil)
-		bad := ""
-		for f := range parent {
-			if f.Name() == "RemoveLabel" {
-				bad = callPath(parent, f)
-			}
-		}
-		if bad == "" {
-			c.ok("C04-R2", "diffbase:proto", p.relFile(pp.Pos()), "a diff saved with -proto keeps its base marking", "RemoveLabel is not reachable from printProto")
-		} else {
-			c.bad("C04-R2", "diffbase:proto", p.relFile(pp.Pos()), "the proto output removes labels ("+bad+"): a saved diff would reopen as a plain profile")
-		}
-	}
+	c.diffBaseProtocol("C04-R2")
 
 	// ---- R3 total
 	if ct := c.anchorFn("C04-R3", "internal/report", "computeTotal"); ct != nil {
@@ -204,6 +145,8 @@ func runC04(c *Check) {
 	c.edgeDedupByPair()
 	c.totalAndDivisorTogether()
 	c.unsymbolizedFramesInTree()
+	c.divisorUnmodified()
+	c.pseudoFramesOnEverySample()
 }
 
 // R5b: edge weights are de-duplicated per (caller, callee) pair and per sample: the
@@ -677,6 +620,90 @@ func (c *Check) meanDivisorNeverSkipped() {
 			c.bad("C04-R4", key, pos, name+" can skip a sample whose mean divisor is non-zero (a path through one iteration avoids the frame loop although the divisor value is not zero): with the mean option that sample's count is missing from FlatDiv/CumDiv/WeightDiv and the means come out too large")
 		} else {
 			c.ok("C04-R4", key, p.relFile(frames.Instrs[0].Pos()), name+" skips a sample only when its divisor contribution is zero too", "assuming the divisor non-zero, every path through one iteration of the sample loop reaches the frame loop")
+		}
+	}
+}
+
+// diffBaseProtocol: the label that marks base samples is written, tested and removed with
+// one key and value; it is removed only by the report's graph construction (after the total
+// was computed), and the proto output keeps it so that a saved diff reopens as a diff.
+func (c *Check) diffBaseProtocol(rule string) {
+	p := c.P
+	// ---- R2 diff-base label protocol
+	type site struct {
+		what, rel, fn, callee string
+	}
+	keys := map[string][]string{}
+	for _, s := range []site{
+		{"set", "internal/driver", "fetchProfiles", "SetLabel"},
+		{"test", "profile", "(*Sample).DiffBaseSample", "HasLabel"},
+		{"remove", "internal/report", "(*Report).newGraph", "RemoveLabel"},
+	} {
+		f := c.anchorFn(rule, s.rel, s.fn)
+		if f == nil {
+			continue
+		}
+		for _, b := range f.Blocks {
+			for _, ins := range b.Instrs {
+				call, ok := ins.(*ssa.Call)
+				if !ok || call.Call.StaticCallee() == nil || call.Call.StaticCallee().Name() != s.callee {
+					continue
+				}
+				if k, ok := constString(call.Call.Args[1]); ok && strings.HasPrefix(k, "pprof::") {
+					val := ""
+					if len(call.Call.Args) > 2 {
+						if v, ok := constString(call.Call.Args[2]); ok {
+							val = v
+						} else if vs := variadicValues(call.Call.Args[2]); len(vs) == 1 {
+							val, _ = constString(vs[0])
+						}
+					}
+					keys[s.what] = append(keys[s.what], k+"="+val)
+				}
+			}
+		}
+	}
+	set, test, rem := keys["set"], keys["test"], keys["remove"]
+	switch {
+	case len(set) != 1 || len(test) != 1 || len(rem) != 1:
+		c.undecided(rule, "diffbase", "", fmt.Sprintf("diff-base label sites not all found (set %v, test %v, remove %v)", set, test, rem))
+	case set[0] != test[0]:
+		c.bad(rule, "diffbase", "", fmt.Sprintf("base samples are labelled %s but recognised by %s: the total of a diff would no longer be the base total", set[0], test[0]))
+	case !strings.HasPrefix(set[0], strings.TrimSuffix(rem[0], "=")+"="):
+		c.bad(rule, "diffbase", "", fmt.Sprintf("base samples are labelled %s but the report removes label %s", set[0], rem[0]))
+	default:
+		c.ok(rule, "diffbase", "", "the diff-base label is written, tested and removed consistently", "fetchProfiles sets "+set[0]+", Sample.DiffBaseSample tests "+test[0]+", Report.newGraph removes key "+strings.TrimSuffix(rem[0], "="))
+	}
+	// proto output keeps the label: printProto's call tree does not remove labels
+	if pp := c.anchorFn(rule, "internal/report", "printProto"); pp != nil {
+		parent, _ := p.MG().Reach([]*ssa.Function{pp}, nil)
+		bad := ""
+		for f := range parent {
+			if f.Name() == "RemoveLabel" {
+				bad = callPath(parent, f)
+			}
+		}
+		if bad == "" {
+			c.ok(rule, "diffbase:proto", p.relFile(pp.Pos()), "a diff saved with -proto keeps its base marking", "RemoveLabel is not reachable from printProto")
+		} else {
+			c.bad(rule, "diffbase:proto", p.relFile(pp.Pos()), "the proto output removes labels ("+bad+"): a saved diff would reopen as a plain profile")
+		}
+	}
+
+	// the removal is not reachable from report.New: the total (and any later report on the same
+	// profile, and the proto output) still sees the marking
+	if nw := c.anchorFn(rule, "internal/report", "New"); nw != nil {
+		parent, _ := p.MG().Reach([]*ssa.Function{nw}, nil)
+		bad := ""
+		for f := range parent {
+			if f.Name() == "RemoveLabel" {
+				bad = callPath(parent, f)
+			}
+		}
+		if bad == "" {
+			c.ok(rule, "diffbase:new", p.relFile(nw.Pos()), "constructing a report leaves the base marking on the profile", "RemoveLabel is not reachable from report.New")
+		} else {
+			c.bad(rule, "diffbase:new", p.relFile(nw.Pos()), "report.New removes the diff-base label ("+bad+"): the proto output and every later report built on the same profile lose the base marking, so totals and percentages of a diff are no longer relative to the base")
 		}
 	}
 }
